@@ -134,3 +134,20 @@ func TestKnown_ArgUsesWrap(t *testing.T) {
 		t.Errorf("K-C04-5: x65535 in the default value shares the Var of the body's var")
 	}
 }
+
+// K-C04-6: one identifier in two spellings
+func TestKnown_EscapedSpelling(t *testing.T) {
+	known := ev.KnownFindings("C04")
+	ast, err := js.Parse(parse.NewInputString("var \\u0061; a; \\u{61}"), js.Options{})
+	if err != nil {
+		t.Fatalf("program rejected: %v", err)
+	}
+	if len(ast.BlockStmt.Scope.Declared) == 1 && len(ast.BlockStmt.Scope.Undeclared) == 0 && ast.BlockStmt.Scope.Declared[0].Uses == 3 {
+		return // repaired
+	}
+	if _, listed := known["K-C04-6"]; listed {
+		ev.ReportKnown("C04", "K-C04-6", fmt.Sprintf("var \\u0061; a; \\u{61}: %d declared and %d undeclared variables for one binding", len(ast.BlockStmt.Scope.Declared), len(ast.BlockStmt.Scope.Undeclared)))
+	} else {
+		t.Errorf("K-C04-6: var \\u0061; a; \\u{61}: %d declared and %d undeclared variables for one binding", len(ast.BlockStmt.Scope.Declared), len(ast.BlockStmt.Scope.Undeclared))
+	}
+}
